@@ -8,7 +8,7 @@ import random
 import numpy as np
 import pandas as pd
 
-from .. import common
+from .. import common, checklib
 from ..rtc import par
 
 LEVEL = "exploration"
@@ -217,7 +217,16 @@ def make_known():
         print(c, [(f, res[f]) for f in known if known[f] == c][:4])
 
 
+def PROOFS():
+    from ..contracts import categorical_c, utils_c, terms_c
+    K = "formulae.categorical."
+    return [("vf.contracts.categorical_c", [K + "ContrastMatrix.__init__", K + "Treatment.code_with_intercept",
+                                            K + "Treatment.code_without_intercept"]),
+            ("vf.contracts.utils_c", utils_c.FUNCTIONS), ("vf.contracts.terms_c", terms_c.FUNCTIONS)]
+
+
 def run(report, findings):
+    checklib.run_proofs(report, "C04", PROOFS())
     known = {}
     if os.path.exists(KNOWN):
         with gzip.open(KNOWN, "rt") as fh:
